@@ -60,7 +60,29 @@ structure Pipe where
   wOpen : Bool
   /-- a named FIFO whose two ends were opened read-write: never at end of file, never `EPIPE` -/
   fifo : Bool := false
+  /-- buffer slots possibly in use (the harness stops filling a pipe at `slotLimit` of the kernel's 16) -/
+  slots : Nat := 0
+  /-- zero copy: a byte spliced in from a regular file is a reference to the file's page (inode, offset); it is
+  read from the file's content AT THE TIME THE PIPE IS READ. `none` = an own copy (`buf`). Same length as `buf`. -/
+  alias : List (Option (Nat × Nat)) := []
   deriving Repr
+
+def slotLimit : Nat := 12
+def pipeCapacity : Nat := 65536
+
+/-- append copied bytes -/
+def Pipe.push (p : Pipe) (data : Bytes) : Pipe :=
+  { p with buf := p.buf ++ data, alias := p.alias ++ data.map (fun _ => none),
+           slots := if data.isEmpty then p.slots else p.slots + 1 }
+
+/-- append bytes together with where they come from -/
+def Pipe.pushRefs (p : Pipe) (data : Bytes) (refs : List (Option (Nat × Nat))) : Pipe :=
+  { p with buf := p.buf ++ data, alias := p.alias ++ refs,
+           slots := if data.isEmpty then p.slots else p.slots + 1 }
+
+def Pipe.pop (p : Pipe) (n : Nat) : Pipe :=
+  { p with buf := p.buf.drop n, alias := p.alias.drop n,
+           slots := if (p.buf.drop n).isEmpty then 0 else p.slots }
 
 structure St where
   names : List (String × Node) := []
@@ -82,6 +104,13 @@ def insert {α β} [DecidableEq α] (l : List (α × β)) (k : α) (v : β) : Li
 def St.content (s : St) (ino : Nat) : Bytes := (lookup s.inodes ino).getD []
 
 def St.setContent (s : St) (ino : Nat) (c : Bytes) : St := { s with inodes := insert s.inodes ino c }
+
+/-- what a reader of the pipe gets now: aliased bytes come from the present content of their file -/
+def St.pipeBytes (s : St) (p : Pipe) : Bytes :=
+  (p.buf.zip p.alias).map fun (b, r) =>
+    match r with
+    | some (ino, off) => ((s.content ino)[off]?).getD b
+    | none => b
 
 /-- follow symbolic links (the kernel gives up after 40; `fuel` = 41 lookups) -/
 def St.resolve (s : St) : Nat → String → Except Nat (String × Option Node)
@@ -311,5 +340,116 @@ def seqOffset (d : Driver) (_filePos : Nat) : Except Nat Nat :=
   match d with
   | .iour => .ok 0
   | .poll => .error EPERM
+
+/-! ## splice -/
+
+def ESPIPE := 29
+
+/-- how the polling driver's `Splice::pre_submit` chooses the descriptors to wait for (regenerated):
+`bothEnds` registers both with epoll, which refuses regular files (`EPERM`, finding F080) -/
+abbrev SpliceWait := Compio.Gen.OpTable.SpliceWait
+
+inductive End where
+  | file (h : Nat)
+  | pipe (p : Nat)
+  deriving DecidableEq, Repr
+
+inductive SpliceOut where
+  | ok (n : Nat)
+  | err (e : Nat)
+  | answer (s : String)
+  deriving DecidableEq, Repr
+
+/-- `compio_fs::pipe::splice(src, dst, len).offset_in(..).offset_out(..)`; `eperm` = the driver registers both
+ends with epoll. The harness' guards come first (`nohandle`, `closed`, `wouldblock`, `full`), then the driver, then the kernel. -/
+def St.spliceCore (eperm : Bool) (s : St) (src dst : End) (len : Nat) (oi oo : Option Nat) :
+    St × SpliceOut :=
+  -- guards on a pipe source
+  let g1 : Option String :=
+    match src with
+    | .pipe p =>
+      match lookup s.pipes p with
+      | none => some "nohandle"
+      | some pp =>
+        if !pp.rOpen then some "closed"
+        else if pp.buf.isEmpty && (pp.wOpen || pp.fifo) then some "wouldblock" else none
+    | .file _ => none
+  match g1 with
+  | some a => (s, .answer a)
+  | none =>
+  let g2 : Option String :=
+    match dst with
+    | .pipe p =>
+      match lookup s.pipes p with
+      | none => some "nohandle"
+      | some pp =>
+        if !pp.wOpen then some "closed"
+        else if pp.slots ≥ slotLimit || pp.buf.length ≥ pipeCapacity then some "full" else none
+    | .file _ => none
+  match g2 with
+  | some a => (s, .answer a)
+  | none =>
+  let missing (e : End) : Bool :=
+    match e with
+    | .file h => (lookup s.handles h).isNone
+    | .pipe _ => false
+  let isFile (e : End) : Bool :=
+    match e with
+    | .file _ => true
+    | .pipe _ => false
+  if missing src || missing dst then (s, .answer "nohandle") else
+  let hasFile := isFile src || isFile dst
+  if eperm && hasFile then (s, .err EPERM) else
+  if len = 0 then (s, .ok 0) else
+  match src, dst with
+  | .file _, .file _ => (s, .err EINVAL)
+  | .pipe a, .pipe b =>
+    if oi.isSome || oo.isSome then (s, .err ESPIPE) else
+    if a = b then (s, .err EINVAL) else
+    match lookup s.pipes a, lookup s.pipes b with
+    | some pa, some pb =>
+      if len = 0 then (s, .ok 0) else
+      if !pb.rOpen && !pb.fifo then (s, .err EPIPE) else
+      let n := min len (pipeCapacity - pb.buf.length)
+      let data := pa.buf.take n
+      let s := { s with pipes := insert s.pipes a (pa.pop data.length) }
+      ({ s with pipes := insert s.pipes b (pb.pushRefs data (pa.alias.take n)) }, .ok data.length)
+    | _, _ => (s, .answer "nohandle")
+  | .file h, .pipe p =>
+    match lookup s.handles h, lookup s.pipes p with
+    | some hd, some pp =>
+      if oo.isSome then (s, .err ESPIPE) else
+      if !hd.r then (s, .err EBADF) else
+      match hd.ino with
+      | none => (s, .err EINVAL)
+      | some i =>
+        if len = 0 then (s, .ok 0) else
+        if !pp.rOpen && !pp.fifo then (s, .err EPIPE) else
+        let pos := oi.getD hd.pos
+        let data := pread (s.content i) pos (min len (pipeCapacity - pp.buf.length))
+        let s := if oi.isNone then { s with handles := insert s.handles h { hd with pos := hd.pos + data.length } } else s
+        let refs := (List.range data.length).map fun j => some (i, pos + j)
+        ({ s with pipes := insert s.pipes p (pp.pushRefs data refs) }, .ok data.length)
+    | _, _ => (s, .answer "nohandle")
+  | .pipe p, .file h =>
+    match lookup s.pipes p, lookup s.handles h with
+    | some pp, some hd =>
+      if oi.isSome then (s, .err ESPIPE) else
+      if !hd.w then (s, .err EBADF) else
+      match hd.ino with
+      | none => (s, .err EBADF)
+      | some i =>
+        if len = 0 then (s, .ok 0) else
+        let data := (s.pipeBytes pp).take len
+        let pos := oo.getD hd.pos
+        let s := s.setContent i (pwrite (s.content i) pos data)
+        let s := if oo.isNone then { s with handles := insert s.handles h { hd with pos := hd.pos + data.length } } else s
+        ({ s with pipes := insert s.pipes p (pp.pop data.length) }, .ok data.length)
+    | _, _ => (s, .answer "nohandle")
+
+/-- on driver `d`, given how the polling driver's `Splice::pre_submit` picks the descriptors to wait for -/
+def St.splice (d : Driver) (wait : SpliceWait) (s : St) (src dst : End) (len : Nat) (oi oo : Option Nat) :
+    St × SpliceOut :=
+  s.spliceCore (d = .poll && wait = .bothEnds) src dst len oi oo
 
 end Compio.FileRef
